@@ -126,7 +126,7 @@ func (d *EpochDriver) synth(height uint64, as *appstate.AppState, sc collector.S
 		}
 		hv := h64(seed, height, e.addr, 'S')
 		ns := opts[hv%uint64(len(opts))]
-		if w.Opt.EpochNoKills && !ns.NewbieOrBetter() && e.id.State != state.Invite {
+		if w.Opt.EpochNoKills && !ns.NewbieOrBetter() && e.id.State != state.Invite && !(w.Opt.EpochSuspends && (ns == state.Suspended || ns == state.Zombie)) {
 			// gentle epochs: nobody loses the status, so that no stake is burnt and the issued
 			// amount is visible undiluted in the ledger delta
 			ns = opts[0]
